@@ -93,7 +93,10 @@ class Check(PropertyCheck):
     def oracle(self, cases):
         fails = []
         texts = [self.build(a, k, n, x) for (_, a, _, k, n, x) in cases]
-        res = common.run_impl("lib", ["%d settings b=0,s=0,d=0 %s" % (i, hx(t)) for i, t in enumerate(texts)])
+        # every fourth drawing is put into a buffer that was rendered before and is filled cell by cell ("mutate"), every
+        # fifth into a buffer rendered with other settings first ("reuse"): the circle has to come out all the same
+        entry = lambda i, x: "settings" if x == 4 else ("mutate" if i % 4 == 1 else "reuse" if i % 5 == 2 else "settings")
+        res = common.run_impl("lib", ["%d %s b=0,s=0,d=0 %s" % (i, entry(i, cases[i][5]), hx(t)) for i, t in enumerate(texts)])
         for i, (idx, art, edge, k, n, extra) in enumerate(cases):
             self.evaluations += 1
             t = texts[i]
